@@ -201,6 +201,23 @@ func checkGen(rec *stats.Recorder, c genCase) (msg string, known string) {
 	fail := func(format string, a ...any) (string, string) {
 		return fmt.Sprintf(format, a...), ""
 	}
+	// hand-written implementations of the custom typerefs, placed where the generator looks for them (beside the code it
+	// generates for the namespace); they are user files: every run finds them and must leave them alone
+	customs := 0
+	placeCustoms := func(out string) {
+		for _, n := range s.Types {
+			if n.Kind == "typeref" && n.Custom {
+				dir := filepath.Join(out, filepath.FromSlash(strings.ReplaceAll(n.Namespace, ".", "/")))
+				must(os.MkdirAll(dir, 0o755))
+				must(os.WriteFile(filepath.Join(dir, n.Name+".go"), []byte(schema.CustomTyperefSource(s.PackageRoot, n, fnv1aImport)), 0o644))
+				customs++
+			}
+		}
+	}
+	placeCustoms(out0)
+	if customs > 0 {
+		rec.Label("manifests_with_custom_typerefs", 1)
+	}
 	// 1. total: the generator succeeds
 	o, err := run(mod, gendrv, drvArgs(manifest, out0, root)...)
 	if err != nil {
@@ -230,6 +247,7 @@ func checkGen(rec *stats.Recorder, c genCase) (msg string, known string) {
 				must(os.WriteFile(filepath.Join(outk, d, "ZzGone.gr.go"), []byte("package gone\n\nvar Broken = undefinedIdentifier\n"), 0o444))
 			}
 		}
+		placeCustoms(outk)
 		if o, err := run(mod, gendrv, drvArgs(manifest, outk, root)...); err != nil {
 			return fail("the generator failed on run %d of the same manifest: %s", k+1, lastLines(o, 8))
 		}
